@@ -12,6 +12,9 @@ C07 ...).  This module is the ONE place where
       PunyLaws   (Lemmas/Canonicalize.lean)   no_dot, stable
       PunyClean  (Lemmas/CanonRoundTrip.lean) clean, nonempty
       PunyCase   (Props/C04.lean)            the decoder ignores the ASCII letter case of its label
+      HostTok    (Lemmas/HostTok.lean: HostnameTrieSet.PunyLaws, C09) decoded (the result is the
+                 label itself or no longer starts with xn--), no_dot, clean (a dot-free, space-free,
+                 ASCII-lower-case label decodes to such a label)
       IdnaLaws   (Lemmas/Canonicalize.lean)   same_name (the decoded label has the ACE spelling
                  of the label it was given: decoding never changes the NAME), ace_lower (a law
                  of the reference encoder)
@@ -32,7 +35,7 @@ import stringprep
 import unicodedata
 
 GROUPS = ("PunyLaws", "PunyClean", "IdnaLaws")
-ALL_GROUPS = GROUPS + ("PunyCase",)
+ALL_GROUPS = GROUPS + ("PunyCase", "HostTok")
 IDEOGRAPHIC_FULL_STOP = "\u3002"
 # RFC 3490 3.1: the characters IDNA reads as label separators, next to '.'
 IDNA_DOTS = ["\u3002", "\uff0e", "\uff61"]
@@ -100,6 +103,11 @@ def _is_control(c):
     return o <= 0x1F or 0x7F <= o <= 0x9F
 
 
+def clean_label(l):
+    """Lean: HostnameTrieSet.cleanLabel — dot-free, no str.isspace character, unchanged by ASCII lower-casing"""
+    return "." not in l and not any(c.isspace() for c in l) and ascii_lower(l) == l
+
+
 def label_failures(x, d, groups=GROUPS):
     """[(group, law, message)] for one label x and what the real decoder made of it"""
     out = []
@@ -122,6 +130,13 @@ def label_failures(x, d, groups=GROUPS):
         dl = decode_label(ascii_lower(x))
         if ascii_lower(dl) != ascii_lower(d):
             out.append(("PunyCase", "case", "%r -> %r but %r -> %r" % (x, d, ascii_lower(x), dl)))
+    if "HostTok" in groups and is_ace(x):
+        if d != x and is_ace(d):
+            out.append(("HostTok", "decoded", "%r -> %r still starts with xn--" % (x, d)))
+        if "." in d and "." not in x:
+            out.append(("HostTok", "no_dot", "%r -> %r" % (x, d)))
+        if clean_label(x) and not clean_label(d):
+            out.append(("HostTok", "clean", "%r -> %r is not a clean label (dot, white space or upper-case ASCII)" % (x, d)))
     if "IdnaLaws" in groups:
         if ace_label(d) != ace_label(x):
             out.append(("IdnaLaws", "same_name", "%r -> %r, whose ASCII-compatible spelling is %r" % (x, d, ace_label(d))))
